@@ -807,18 +807,22 @@ def rule(prop):
 
 def partial_clauses(prop):
     return [
-        "umbrella `prop_C08 i (model i) = true`: proved for two families only - C08_model_satisfies_prop_shift_partial "
-        "(accepted: plain shift, full paths, one pair, sep = tree.sep of any positive length, names free of separator "
-        "characters) and C08_model_satisfies_prop_both_merges (refused: merge_children + merge_leaves, all inputs); for "
-        "every other family the predicate is evaluated on the implementation's output only and the theorems below are "
-        "about resolved references (cs_core / rp_core), not about the whole string-level call",
+        "umbrella `prop_C08 i (model i) = true`: not proved for all inputs.  Proved per family (one shift_nodes / copy_nodes "
+        "pair, separators of any positive length, sep != tree.sep and leading separators allowed, names free of separator "
+        "characters): refused by an argument check (C08_prop_refused_by_checks: both merge flags, last names differ, from- / "
+        "to-path not starting at the root), missing from-path (C08_prop_missing_from_path), from == to without a merge flag "
+        "(C08_prop_same_node), accepted with an absent destination for plain / delete_children shift and copy "
+        "(C08_whole_call_general; C08_prop_absent_generic turns any proved absent-destination row into the same "
+        "statement), accepted with overriding (C08_prop_override), plus C08_model_satisfies_prop_both_merges for all inputs. "
+        "Missing: length mismatch and copy-with-empty-to-path as prop statements, partial from-paths, trailing separators, "
+        "several pairs, tree-to-tree and replace calls at the string level, merge rows onto existing destinations",
         "merge_children: C08_merge_children (destination absent) and C08_merge_children_existing (destination present, no "
         "overriding); with copy or together with delete_children: no theorem",
         "merge_leaves: C08_merge_leaves_partial holds under the guard 'every child of the source node is a leaf'; deeper "
         "source subtrees, existing destinations, copy: no theorem",
         "replace_position: C08_replace_position_tt (tree-to-tree), _left_sibling, _right_sibling, _unrelated (source neither "
-        "below the replaced node's parent nor an ancestor of it; table result stated as A ++ L ++ F ++ R ++ B, not linked to "
-        "Spec.edit_rp); a source below the replaced node's parent but not a sibling (inside a sibling's subtree), nested "
+        "below the replaced node's parent nor an ancestor of it; C08_replace_position_unrelated_spec links it to Spec.edit_rp); "
+        "a source below the replaced node's parent but not a sibling (inside a sibling's subtree), nested "
         "nodes, delete_children: no theorem",
         "delete_children: C08_delete_children (shift) and C08_delete_children_copy (copy) for an absent destination; with "
         "overriding / merge flags / replace: no theorem",
@@ -826,9 +830,9 @@ def partial_clauses(prop):
         "C08_tree_to_tree_source_untouched; not connected to the heap-id results of Heap/Effects",
         "override / shift with one node inside the other, from == to with a merge flag, copy into the source subtree: "
         "no theorem (prop_C08 is lenient for destinations inside the source subtree)",
-        "string layer: C08_shift_whole_call_multi needs full paths without leading/trailing separator and sep = tree.sep; "
-        "sep != tree.sep (replace(sep, tree.sep)), partial from-paths (find_path suffix addressing, ambiguity error), "
-        "leading/trailing separators, empty separators: modelled and compared by the correspondence, no theorem; "
+        "string layer: C08_whole_call_general covers sep != tree.sep (replace(sep, tree.sep)) and leading separators for "
+        "full paths; partial from-paths (find_path suffix addressing, SearchError when ambiguous), trailing separators and "
+        "empty separators are modelled and compared by the correspondence, no theorem; "
         "C08_multi_is_sequence and C08_tree_to_tree_source_untouched are whole-call theorems for all inputs",
         "accepted blind spots of the correspondence (leniency audit): (a) F_SKIP domains, where neither model nor "
         "predicate constrain the outcome: merge_leaves without copy into the source subtree (lazy generator), a call that "
